@@ -21,6 +21,28 @@ from .common import facts_for, alg_classes, SPLINES
 from . import c01
 
 
+def rhs_rows(I, arr, Lf):
+    """The interior right-hand-side rows of the cubic system as (first row, count, row value in the run index RSYM,
+    line): written either as one block assignment or by a unit-stride loop of its own."""
+    rng = [r for r in I.effects_ranges if r[0] == arr]
+    if len(rng) == 1:
+        return rng[0][1:]
+    cands = []
+    for L in I.loops:
+        if L is Lf or L.inner or L.step != 1 or L.hi is None or L.cond_op not in ("<", "<="):
+            continue
+        es = [e for e in L.effects if e.target == arr]
+        if len(es) == 1 and len(L.effects) == 1 and es[0].op == "=" and isinstance(es[0].value, Vec) and len(es[0].key) == 1:
+            c_ = sp.expand(es[0].key[0] - L.var)
+            if L.var in c_.free_symbols:
+                continue
+            ue = L.hi if L.cond_op == "<" else L.hi + 1
+            cands.append((sp.expand(L.lo + c_), sp.expand(ue - L.lo), sub_vec(es[0].value, L.var, sym.RSYM + L.lo), es[0].line))
+    if len(cands) != 1:
+        raise Broken("cubic right-hand side rows not found (neither a block assignment nor a loop of their own)")
+    return cands[0]
+
+
 def strip_tag(a):
     return (str(a[0]).split("#")[0],) + tuple(a[1:])
 
@@ -337,10 +359,7 @@ def check_cubic(chk, F, M, I, rows, i, roles, J, m):
     chk.ob("C02-R3", "%s forward sweep covers rows 1..N-1" % cls, Lf.lo == 1 and sym.is_zero(Lf.hi - n) and Lf.step == 1 and Lf.cond_op == "<", loc(g, {"line": Lf.line}),
            "range %s..%s" % (Lf.lo, Lf.hi), construct=cls + "/thomas/forward-range")
     # system row i: b_i x_{i-1} + a_i x_i + c_i x_{i+1} = rhs_i   with rhs from the range assignment
-    rng = [r for r in I.effects_ranges if r[0] == arr]
-    if len(rng) != 1:
-        raise Broken("cubic right-hand side range assignment not found")
-    _, rstart, rcount, rvec, rline = rng[0]
+    rstart, rcount, rvec, rline = rhs_rows(I, arr, Lf)
     rhs_m = sub_vec(ex_v(rvec), sym.RSYM, m - rstart)
     eq = Vec.atom((arr, sp.expand(m - 1))).scale(Bc.subs(iv, m)).add(Vec.atom((arr, sp.expand(m))).scale(Ac.subs(iv, m))).add(Vec.atom((arr, sp.expand(m + 1))).scale(Cc.subs(iv, m))).add(rhs_m, -1)
     ok, ranks = rank_equal([eq.clean()], J, 1)
@@ -391,7 +410,19 @@ def check_cubic(chk, F, M, I, rows, i, roles, J, m):
     chk.ob("C02-R2", "%s last row of the system is p'(t_N) = end velocity" % cls, okl, loc(g), det[:400], construct=cls + "/last-row")
     # first row normalisation and last row elimination of the right-hand side
     r0 = straight(arr, 0, ops=("*=",))
-    ok0 = bool(r0) and inv0 and vec_zero(ex_v(r0[-1].value).add(ex_v(rhs0[0].value).scale(M.expand_scalar(inv0[-1].value)), -1))
+
+    def through_row0(v):
+        # a loop over the interior rows between the store of row 0 and its normalisation makes the interpreter read row 0
+        # as "row 0 of the current generation"; interior loops write rows 1..N-1 only (system-rows-range), so that is
+        # still the value stored before
+        out = Vec()
+        for a_, c_ in v.t.items():
+            if str(a_[0]).split("#")[0] == arr and len(a_) == 2 and sym.is_zero(sp.sympify(a_[1])) and rhs0:
+                out = out.add(rhs0[0].value.scale(c_))
+            else:
+                out = out.add(Vec({a_: c_}))
+        return out
+    ok0 = bool(r0) and inv0 and vec_zero(ex_v(through_row0(r0[-1].value)).add(ex_v(rhs0[0].value).scale(M.expand_scalar(inv0[-1].value)), -1))
     chk.ob("C02-R3", "%s first row normalised by its pivot" % cls, bool(ok0), loc(g), "", construct=cls + "/thomas/first-row")
     rn = straight(arr, n, ops=("*=",))
     okn = False
@@ -455,10 +486,7 @@ def cubic_rows(F, M):
     if len(e_c) != 1:
         raise Broken("c' recurrence not recognised")
     Cc = sp.simplify(M.expand_scalar(e_c[0].value) * den)
-    rng = [r for r in I.effects_ranges if r[0] == arr]
-    if len(rng) != 1:
-        raise Broken("cubic right-hand side range assignment not found")
-    _, rstart, rcount, rvec, rline = rng[0]
+    rstart, rcount, rvec, rline = rhs_rows(I, arr, Lf)
 
     def interior(mm):
         rhs_m = sub_vec(ex_v(rvec), sym.RSYM, mm - rstart)
